@@ -85,6 +85,11 @@ def templates(tier, seed):
     for place in ("xy-attrs", "none"):
         for n in (1, 2):
             tds.append(dict(fam="nested", place=place, n=n))
+    for form in ("prev-id", "prev-id-own-id", "prev-noid", "prev-then-ref"):
+        for place in ("xy-attrs", "none"):
+            tds.append(dict(fam="reuse-prev", form=form, place=place))
+    for form in ("part-of-group", "part-of-symbol", "part-size-ref", "part-deep"):
+        tds.append(dict(fam="specs-nested", form=form))
     tds.append(dict(fam="specs-hidden"))
     for how in ("global-reassigned", "reuse-attr-overrides", "both"):
         for where in ("inline", "specs"):
@@ -284,6 +289,40 @@ def build(td, wrong=False):
             twin_doc.append(f'<g id="n{i}"{tx} class="a"><rect xy="0 0" wh="[[{kw}]] 2" class="b"/><rect xy="0 5" wh="[[{kw + 1}]] 2" class="b"/></g>')
         d0 = "<svg>" + head + "".join(reuse_doc) + "</svg>"
         d1 = "<svg>" + "".join(twin_doc) + "</svg>"
+    elif fam == "reuse-prev":
+        # href="^": the previous element is the template; the rules about ids and classes are the same as for href="#id"
+        kw = alloc([(6, *S), (4, *S)])
+        kp = len(vars_)
+        ra, ta, nv = inst_attrs(td["place"], kp)
+        alloc([(30, *V), (-9, *V)][:nv])
+        form = td["form"]
+        tid = "" if form == "prev-noid" else ' id="q"'
+        tmpl = f'<rect{tid} xy="1 2" wh="[[{kw}]] [[{kw + 1}]]"/>'
+        own = ' id="z"' if form == "prev-id-own-id" else ""
+        use = f'<reuse{own} href="^"{ra}/>'
+        cls = "" if form == "prev-noid" else ' class="q"'
+        tpos = ta if ta else 'xy="1 2"'
+        twin = f'<rect{own} {tpos} wh="[[{kw}]] [[{kw + 1}]]"{cls}/>'
+        tail = '<circle cxy="#q@c" r="1"/>' if form == "prev-then-ref" else ""
+        d0, d1 = f"<svg>{tmpl}{use}{tail}</svg>", f"<svg>{tmpl}{twin}{tail}</svg>"
+        inst_vars.append(list(range(kw, len(vars_))))
+    elif fam == "specs-nested":
+        # an element with an id nested in a group inside <specs> is a template like any other
+        kw = alloc([(6, *S), (4, *S)])
+        kp = alloc([(30, *V), (-9, *V)])
+        form = td["form"]
+        tag = "symbol" if form == "part-of-symbol" else "g"
+        inner = '<rect id="brick" wh="$w 2"/>' if form != "part-size-ref" else '<rect id="brick" wh="5 2"/>'
+        kit = f'<{tag} id="kit">{inner}<circle id="knob" r="1"/></{tag}>'
+        if form == "part-deep":
+            kit = f'<g id="box"><g id="mid">{kit}</g></g>'
+        if form == "part-size-ref":
+            d0 = f'<svg><specs>{kit}</specs><rect xy="[[{kp}]] [[{kp + 1}]]" wh="#brick"/></svg>'
+            d1 = f'<svg><rect xy="[[{kp}]] [[{kp + 1}]]" wh="5 2"/></svg>'
+        else:
+            d0 = f'<svg><specs>{kit}</specs><reuse href="#brick" w="[[{kw}]]" x="[[{kp}]]" y="[[{kp + 1}]]"/></svg>'
+            d1 = f'<svg><rect xy="[[{kp}]] [[{kp + 1}]]" wh="[[{kw}]] 2" class="brick"/></svg>'
+        inst_vars.append(list(range(kw, len(vars_))))
     elif fam == "textparam":
         kw = alloc([(6, *S), (4, *S)])
         kp = len(vars_)
